@@ -1,10 +1,12 @@
 import Vivid.Engine.Util
 import Vivid.Engine.VV
+import Vivid.Engine.Ring
 
 open Vivid.Engine
 
 def engines : List (String × Engine) := [
-  ("vv", VVEngine.engine)
+  ("vv", VVEngine.engine),
+  ("ring", RingEngine.engine)
 ]
 
 partial def loop (h : IO.FS.Stream) (out : IO.FS.Stream) (e : Engine) (s : e.σ) : IO Unit := do
